@@ -383,8 +383,26 @@ func CondLabel(ifi *ssa.If, idx int) string {
 	if _, is := IsErrCheck(ifi); is {
 		return ""
 	}
-	s := Sym(ifi.Cond)
-	if idx == 1 {
+	neg := idx == 1
+	cond := ifi.Cond
+	for {
+		if u, ok := cond.(*ssa.UnOp); ok && u.Op == token.NOT {
+			cond, neg = u.X, !neg
+			continue
+		}
+		break
+	}
+	s := Sym(cond)
+	// one spelling per comparison: a <= b is !(a > b), a >= b is !(a < b)
+	if bo, ok := cond.(*ssa.BinOp); ok && (bo.Op == token.LEQ || bo.Op == token.GEQ) {
+		op := ">"
+		if bo.Op == token.GEQ {
+			op = "<"
+		}
+		s = "(" + Sym(bo.X) + op + Sym(bo.Y) + ")"
+		neg = !neg
+	}
+	if neg {
 		return "!" + s
 	}
 	return s
